@@ -1019,12 +1019,17 @@ def replay(path):
         print('expected line=%r col=%r context=%r' % (exp['line'], exp['col'], exp['context']))
         return 0 if (e.line, e.col) == (exp['line'], exp['col']) and e.context == exp['context'] else 1
     if rp['part'] == 'e2e':
+        ev = case['case'].get('event') or {}
         try:
             sv.compile(rp['pattern'], namespaces=NAMESPACES)
         except sv.SelectorSyntaxError as e:
             print('observed %s' % e)
             print('specification: (line, col) = %s' % case['case'].get('spec_expected'))
-        return 1
+            same = (e.line, e.col, e.context) == (ev.get('line'), ev.get('col'), ev.get('ctx'))
+            print('same diagnostics as recorded: %s' % same)
+            return 1 if same else 0
+        print('no SelectorSyntaxError any more')
+        return 0
     if rp['part'] == 'debug':
         n, out = _debug_work([rp['selector']])
         print(out[0]['problems'])
